@@ -204,9 +204,24 @@ impl<'a> StatementEvaluator<'a> {
     fn evaluate_input_statement(&mut self) -> Result<(), TracedInterpreterError> {
         if let Some((data, has_leftover_input)) = self.interpreter.take_input() {
             // TODO: Support multiple comma-separated items.
-            let lvalue = self.parse_lvalue()?;
             // We're guaranteed to have at least one item in here, even if the input was an empty string.
             let first_element = &data[0];
+            // Whether the reply suits the variable only depends on the variable's
+            // name, so decide that before evaluating any array subscript: a
+            // rejected reply must not re-run the subscript's side effects (e.g.
+            // RND) every time we ask again.
+            if let Some(Token::Symbol(symbol_name)) = self.program().peek_next_token() {
+                if let Err(TracedInterpreterError {
+                    error: InterpreterError::DataTypeMismatch,
+                    ..
+                }) = Value::coerce_from_data_element(&symbol_name, first_element)
+                {
+                    self.interpreter.output(InterpreterOutput::Reenter);
+                    self.interpreter.rewind_program_and_await_input();
+                    return Ok(());
+                }
+            }
+            let lvalue = self.parse_lvalue()?;
             let has_excess_data = data.len() > 1 || has_leftover_input;
             match Value::coerce_from_data_element(&lvalue.symbol_name, first_element) {
                 Ok(value) => {
